@@ -3,17 +3,23 @@ P = dict(
     variants=['asan'],
     level='exploration',
     technique='runtime monitoring: scripted test shells with per-test execution counters, an independent std::string model of filter acceptance and of the selection rule, '
-              'TestResult counters, a recording TestOutput parsed against the callback grammar, and a walk of the registry list after every reverse/shuffle; ASan/UBSan build',
+              'TestResult counters, a recording TestOutput parsed against the callback grammar, and a walk of the registry list after every reverse/shuffle; histories of several CommandLineTestRunner invocations on one registry, each judged against its own command line; ASan/UBSan build',
     rule='cases: a registry (0..60 tests, thorough up to 400; group/name strings from a 16-word alphabet with many substring/equality/case relations; ignored and failing tests mixed) '
          'driven through 1..3 repetitions with group/name filter lists (0..3 each, independent strict/invert flags), run-ignored, reverse, shuffle (boundary and random seeds, real rand() '
-         'and hostile rand() values through the PlatformSpecificRand seam), either directly on TestRegistry or through CommandLineTestRunner with an argv; '
+         'and hostile rand() values through the PlatformSpecificRand seam), either directly on TestRegistry or through CommandLineTestRunner with an argv, '
+         'or through a history of 2..5 CommandLineTestRunner invocations on the same registry (each with its own argv: group / name filter lists present or absent, -ri, -b, -s, -r; '
+         'each runner destroyed before the next one as RunAllTests does, or all kept alive), every repetition of every invocation judged against the filters of that invocation only; '
          'three filter tables (one filter x target, two filters x target, group filter x name filter) are enumerated completely. '
          'Non-trivial = at least one filter that accepts some and rejects some tests of the registry, or a reverse/shuffle of >= 3 tests (table cases: every cell); '
-         'distinct by (number of tests, filter lists with flags, sequence of order operations / run-ignored)',
+         'distinct by (number of tests, filter lists with flags, sequence of order operations / run-ignored; for runner histories the sequence of these per invocation)',
     floor=dict(quick=20000, thorough=200000),
     counter_floor=dict(
-        quick={'ops_shuffle': 10000, 'ops_reverse': 3000, 'configurations_with_discriminating_filter': 10000, 'repetitions_with_run_ignored': 3000, 'runner_invocations': 3000},
-        thorough={'ops_shuffle': 150000, 'ops_reverse': 45000, 'configurations_with_discriminating_filter': 150000, 'repetitions_with_run_ignored': 45000, 'runner_invocations': 45000},
+        quick={'ops_shuffle': 10000, 'ops_reverse': 3000, 'configurations_with_discriminating_filter': 10000, 'repetitions_with_run_ignored': 3000, 'runner_invocations': 3000,
+               'runner_history_later_invocations': 8000, 'later_invocations_without_group_filters_after_one_with': 2000, 'later_invocations_without_name_filters_after_one_with': 2000,
+               'later_invocation_repetitions_where_leftover_filters_would_change_the_selection': 3000},
+        thorough={'ops_shuffle': 150000, 'ops_reverse': 45000, 'configurations_with_discriminating_filter': 150000, 'repetitions_with_run_ignored': 45000, 'runner_invocations': 45000,
+                  'runner_history_later_invocations': 96000, 'later_invocations_without_group_filters_after_one_with': 24000, 'later_invocations_without_name_filters_after_one_with': 24000,
+                  'later_invocation_repetitions_where_leftover_filters_would_change_the_selection': 36000},
     ),
     assumptions=[
         'group notifications: balance and nesting of start/end and "a test starts inside a group opened for its own group name" are judged; '
@@ -21,5 +27,8 @@ P = dict(
         'shuffle: any permutation is accepted (bias, or an element that never moves, is not a violation)',
         'command-line section uses only -g/-sg/-xg/-xsg/-n/-sn/-xn/-xsn/-ri/-b/-s<seed>/-r<n> with non-empty values that do not start with "-" (the parse itself is C12)',
         'separate-process mode (-p) is not exercised here (C11)',
+        'runner histories: run-ignored is treated as sticky (once an invocation gave -ri, ignored tests of later invocations on that registry are expected to run: '
+        'TestRegistry offers no way to switch it off and the property does not ask for one); the list order is carried over from invocation to invocation; '
+        'the same runner object is never asked to run twice',
     ],
 )
